@@ -41,6 +41,16 @@ CHECKS = {
               "they are not observed by running anything."),
         note=TRUST + "; numpy's global generator is deterministic given seed and call sequence; dict order is insertion order",
         ref="DESIGN.md section 4-C14"),
+    "C15": dict(
+        engine="E4 taint + access summaries",
+        technique="taint analysis of the time parameter + read/write effect summaries with must-written dataflow (idempotence of pull)",
+        text=("Static non-interference: in the 12 listed algorithms the time argument of pull/receive_reward reaches nothing but "
+              "never-read attributes and the time argument of base learners; for T-HOO, HCT, VHCT, Zooming get_last_point is "
+              "pull(<const>) and pull is idempotent by effects (no tree growth, no RNG, no read of a location it writes that could "
+              "see a pre-call value); POO's query writes no POO state and performs one learner pull. Sound for the stated clause "
+              "under a field-based abstraction."),
+        note=TRUST + "; cells of one tree are merged per attribute; pull precedes receive_reward in each round",
+        ref="DESIGN.md section 4-C15"),
 }
 
 NOT_YET = "checker under construction in this round (see DESIGN.md section 0 for the clause it will decide)"
